@@ -1,4 +1,8 @@
-use std::{collections::HashSet, rc::Rc, vec};
+use std::{
+    collections::{HashMap, HashSet},
+    rc::Rc,
+    vec,
+};
 
 use crate::{
     cfg::{Cfg, CfgNode, Function, RegisterSet},
@@ -125,12 +129,15 @@ impl GenerationPass for FunctionMarkupPass {
         // Phase 2: every function gets one exit. Of its returns, the one that
         // the most functions reach is taken (the first in the program among
         // equals): functions that share a return then share it as their exit.
-        let shared_by = |ret: &Rc<CfgNode>| {
-            marked
-                .iter()
-                .filter(|data| data.returns.iter().any(|r| Rc::ptr_eq(r, ret)))
-                .count()
-        };
+        // (counted once: asking every function about every return again and
+        // again made the pass quartic in the number of functions)
+        let mut reached_by: HashMap<*const CfgNode, usize> = HashMap::new();
+        for data in &marked {
+            for ret in &data.returns {
+                *reached_by.entry(Rc::as_ptr(ret)).or_default() += 1;
+            }
+        }
+        let shared_by = |ret: &Rc<CfgNode>| reached_by.get(&Rc::as_ptr(ret)).copied().unwrap_or(0);
         for data in &marked {
             let mut exit = &data.returns[0];
             for ret in &data.returns[1..] {
@@ -149,11 +156,23 @@ impl GenerationPass for FunctionMarkupPass {
         // Phase 3: every other return becomes a jump to the exit - unless it is
         // the exit of some function, or one of its functions does not reach the
         // exit it would lead to (it then stays a return of its own).
-        let exit_of_a_function = |node: &Rc<CfgNode>| {
-            marked
-                .iter()
-                .any(|data| Rc::ptr_eq(&data.func.exit(), node))
-        };
+        let exits = marked
+            .iter()
+            .map(|data| Rc::as_ptr(&data.func.exit()))
+            .collect::<HashSet<*const CfgNode>>();
+        let exit_of_a_function = |node: &Rc<CfgNode>| exits.contains(&Rc::as_ptr(node));
+        let reaches = marked
+            .iter()
+            .map(|data| {
+                (
+                    Rc::as_ptr(&data.func),
+                    data.instructions
+                        .iter()
+                        .map(Rc::as_ptr)
+                        .collect::<HashSet<*const CfgNode>>(),
+                )
+            })
+            .collect::<HashMap<*const Function, HashSet<*const CfgNode>>>();
         for data in &marked {
             let exit = Rc::clone(&data.func.exit());
             for ret in &data.returns {
@@ -166,7 +185,11 @@ impl GenerationPass for FunctionMarkupPass {
                 let harmless = ret
                     .functions()
                     .iter()
-                    .all(|owner| owner.nodes().iter().any(|node| Rc::ptr_eq(node, &exit)));
+                    .all(|owner| {
+                        reaches
+                            .get(&Rc::as_ptr(owner))
+                            .is_some_and(|nodes| nodes.contains(&Rc::as_ptr(&exit)))
+                    });
                 if harmless {
                     Self::redirect_return(ret, &exit);
                 }
